@@ -66,3 +66,21 @@ REG.add(Contract(F_MOD, '_Exp_Spline_Factory.build_spline',
     ensures=lambda v, old, res: [z3.Length(params_of(v.spline_defn)) == 0], post_names=['returns-only-without-parameters'],
     raises_when=lambda v, old, exc: [z3.BoolVal(exc.cls == 'ConfigurationException'), z3.Length(params_of(v.spline_defn)) > 0], on_raise=lambda v, old: [],
     carries=['post', 'raises'], props=['C16', 'C10']))
+
+# ---------------------------------------------------------------- [Species] values: text -> int / float / text by property name
+from pyvc.symexec import parses_int, parses_float, str_to_int, str_to_real
+def _sp_kind(p):
+    f = z3.Or(*[p == z3.StringVal(x) for x in ('atomic_mass', 'covalent_radius', 'lattice_constant', 'charge')])
+    return f, p == z3.StringVal('atomic_number')
+def _sp_post(v, old, res):
+    isf, isi = _sp_kind(v.property_name)
+    return [z3.Implies(isi, z3.And(parses_int(v.v), res == Val.VI(str_to_int(v.v)))),
+            z3.Implies(isf, z3.And(parses_float(v.v), res == Val.VR(str_to_real(v.v)))),
+            z3.Implies(z3.Not(z3.Or(isf, isi)), Val.is_VS(res))]
+def _sp_raises(v, old, exc):
+    isf, isi = _sp_kind(v.property_name)
+    return [z3.BoolVal(exc.cls == 'ConfigParserException'), z3.Or(z3.And(isi, z3.Not(parses_int(v.v))), z3.And(isf, z3.Not(parses_float(v.v))))]
+REG.add_class(ClassDecl(F_CP, 'ConfigParserSp', {}, pyname='ConfigParser'))
+REG.add(Contract(F_CP, 'ConfigParser._convert_species_type', params=[('self', T.Obj('ConfigParserSp')), ('property_name', T.Str), ('v', T.Str)], result=T.Val,
+    ensures=_sp_post, post_names=['atomic_number-is-an-int', 'masses-radii-lattice-constants-charges-are-floats', 'anything-else-stays-text'],
+    raises_when=_sp_raises, on_raise=lambda v, old: [], raises_classes=['ConfigParserException'], carries=['post', 'raises'], props=['C16', 'C03']))
